@@ -70,6 +70,11 @@ def draw_cfg(rng, quick=True):
             alpha[w, :] = 0.0
         elif u < 0.3:
             alpha[w, 0] = 1.0
+    # walls given with INTEGER absorption values (rigid 0 / fully absorbing 1), as a user would type them
+    int_alpha = bool(rng.random() < 0.2)
+    if int_alpha:
+        alpha = rng.integers(0, 2, (nwalls, nb)).astype(float)
+        alpha[0, :] = 0.0
     scat = np.ones((nwalls, nb))
     if rng.random() < 0.3:
         scat = np.round(rng.uniform(0.1, 1.0, (nwalls, nb)), 3)
@@ -104,7 +109,7 @@ def draw_cfg(rng, quick=True):
         tr = (rng.integers(-40, 41, 3) / 8.0).tolist()
     else:
         tr = np.round(rng.uniform(-12.0, 12.0, 3), 3).tolist()
-    return dict(dyadic=dyadic, n=list(n), ps=ps, dims=dims, subset=[int(s) for s in subset], nb=nb,
+    return dict(int_alpha=int_alpha, dyadic=dyadic, n=list(n), ps=ps, dims=dims, subset=[int(s) for s in subset], nb=nb,
                 alpha=alpha.tolist(), scat=scat.tolist(), att=att.tolist(), others=others, K=K, c=c, fs=fs,
                 src=src, rcv=rcv, power=power, N=int(N), kind=kind, tr=[float(t) for t in tr])
 
@@ -126,7 +131,7 @@ def build(cfg, N=None, tr=None, perm=0, K=None):
         walls.append(PatchesKang(
             poly, cfg["ps"], cfg["others"][wid], wid,
             scattering=np.array(cfg["scat"][wid], dtype=float),
-            absorption=np.array(cfg["alpha"][wid], dtype=float),
+            absorption=np.array(cfg["alpha"][wid], dtype=(int if cfg.get("int_alpha") else float)),
             sound_attenuation_factor=np.array(cfg["att"], dtype=float)))
     s = np.array(cfg["src"], dtype=float) + t
     r = np.array(cfg["rcv"], dtype=float) + t
@@ -292,7 +297,7 @@ def _scene_case(spec):
     out = {"evaluations": 1, "mismatches": [], "prop_failures": [], "dist": {}, "nontrivial": []}
     quick = spec.get("quick", True)
     cfg = draw_cfg(rng, quick)
-    tag = dict(cfg, seed=spec["seed"], idx=spec["idx"], quick=quick, kernel=False)
+    tag = dict(cfg, engine="kang", seed=spec["seed"], idx=spec["idx"], quick=quick, kernel=False)
     out["sample"] = tag
     K, N, nb = cfg["K"], cfg["N"], cfg["nb"]
     radi, source, receiver = build(cfg)
@@ -537,7 +542,7 @@ def _kernel_case(spec):
     att_w = np.round(rng.uniform(0.0, 0.3, (nwalls, nb)), 4)      # per-wall attenuation
     K = int(rng.integers(1, 4))
     N = int(rng.integers(3, 50))
-    tag = dict(cfg, seed=spec["seed"], idx=spec["idx"], kernel=True, K=K, N=N)
+    tag = dict(cfg, engine="kang", seed=spec["seed"], idx=spec["idx"], kernel=True, K=K, N=N)
     out["sample"] = dict(kernel=True, seed=spec["seed"], idx=spec["idx"], K=K, N=N, walls=nwalls)
     radi, source, receiver = build(cfg, N=N, K=K)
     if near_int(delay_args(radi, source, receiver)):
@@ -603,7 +608,7 @@ def _guard(fn, spec, kernel):
         return fn(spec)
     except Exception as exc:  # noqa: BLE001
         import traceback
-        tag = dict(seed=spec["seed"], idx=spec["idx"], quick=spec.get("quick", True), kernel=kernel)
+        tag = dict(engine="kang", seed=spec["seed"], idx=spec["idx"], quick=spec.get("quick", True), kernel=kernel)
         out = {"evaluations": 1, "mismatches": [], "prop_failures": [], "dist": {"raised": 1}, "nontrivial": [],
                "sample": tag}
         tb = traceback.format_exc()
@@ -631,7 +636,7 @@ def rerun_case(spec):
     rng = np.random.default_rng([spec["seed"], 40000 + spec["idx"]])
     out = {"evaluations": 1, "mismatches": [], "prop_failures": [], "dist": {"rerun": 1}, "nontrivial": []}
     cfg = draw_cfg(rng, True)
-    tag = dict(cfg, seed=spec["seed"], idx=spec["idx"], rerun=True)
+    tag = dict(cfg, engine="kang", seed=spec["seed"], idx=spec["idx"], rerun=True)
     out["sample"] = tag
     fresh, source, receiver = build(cfg)
     fresh.run(source)
@@ -676,13 +681,27 @@ def run(res):
     res.assumptions = ASSUMPTIONS
 
 
+def replay_case(res, case):
+    """re-run a recorded Kang-engine case (also used by the checks that borrow these cases);
+    returns False if [case] is not one of ours"""
+    if not isinstance(case, dict) or "seed" not in case or "idx" not in case:
+        return False
+    if case.get("engine") != "kang" and "subset" not in case:
+        return False
+    if case.get("rerun"):
+        res.absorb(fw.run_parallel(rerun_case, [dict(seed=case["seed"], idx=case["idx"])])[0])
+    elif case.get("kernel") is True:
+        res.absorb(kernel_case(dict(seed=case["seed"], idx=case["idx"])))
+    elif case.get("kernel") is False:
+        res.absorb(scene_case(dict(seed=case["seed"], idx=case["idx"], quick=case.get("quick", True))))
+    else:
+        return False
+    return True
+
+
 def replay(res, payload):
     for f in payload.get("failures", []) + payload.get("correspondence", []):
-        case = f.get("case", {})
-        if case.get("kernel"):
-            res.absorb(kernel_case(dict(seed=case["seed"], idx=case["idx"])))
-        else:
-            res.absorb(scene_case(dict(seed=case["seed"], idx=case["idx"], quick=case.get("quick", True))))
+        replay_case(res, f.get("case", {}))
     res.rule = "replay of recorded cases"
     res.not_carried = NOT_CARRIED
     res.assumptions = ASSUMPTIONS
